@@ -1,0 +1,70 @@
+//go:build verif
+
+package consensus
+
+import "github.com/icon-project/goloop/module"
+
+// Verification hooks (add-only): thin exported wrappers around voteSet.
+
+type VerifVoteSet struct{ vs *voteSet }
+
+type VerifCounter struct {
+	Digest []byte
+	PSID   *PartSetID
+	Count  int
+}
+
+func VerifNewVoteSet(n int) *VerifVoteSet { return &VerifVoteSet{newVoteSet(n)} }
+
+func (v *VerifVoteSet) Add(i int, m *VoteMessage) bool { return v.vs.add(i, m) }
+func (v *VerifVoteSet) HasOverTwoThirds() bool         { return v.vs.hasOverTwoThirds() }
+func (v *VerifVoteSet) Decision() ([]byte, *PartSetID, bool) {
+	return v.vs.getOverTwoThirdsRoundDecisionDigest()
+}
+func (v *VerifVoteSet) PartSetID() (*PartSetID, bool) { return v.vs.getOverTwoThirdsPartSetID() }
+func (v *VerifVoteSet) MaxIndex() int                 { return v.vs.maxIndex }
+func (v *VerifVoteSet) Count() int                    { return v.vs.count }
+func (v *VerifVoteSet) Round() int32                  { return v.vs.getRound() }
+func (v *VerifVoteSet) Len() int                      { return len(v.vs.msgs) }
+func (v *VerifVoteSet) Msg(i int) *VoteMessage        { return v.vs.msgs[i] }
+func (v *VerifVoteSet) MaskGet(i int) bool            { return v.vs.getMask().Get(i) }
+func (v *VerifVoteSet) Counters() []VerifCounter {
+	r := make([]VerifCounter, len(v.vs.counters))
+	for i, c := range v.vs.counters {
+		r[i] = VerifCounter{c.roundDecisionDigest, c.partsIDAndNTSVoteCount.ID(), c.count}
+	}
+	return r
+}
+func (v *VerifVoteSet) VoteListLen() int { return v.vs.voteList().Len() }
+func (v *VerifVoteSet) VoteListForOverTwoThirdsLen() int {
+	vl := v.vs.voteListForOverTwoThirds()
+	if vl == nil {
+		return -1
+	}
+	return vl.Len()
+}
+
+// VerifSignedVote builds and signs a vote over exactly the given fields
+// (psid == nil: nil vote, bid is then the codec-encoded network id).
+func VerifSignedVote(w module.Wallet, vt VoteType, height int64, round int32, bid []byte,
+	psid *PartSetID, nid uint32, ntsVoteCount uint16, ts int64) *VoteMessage {
+	vm := newVoteMessage()
+	vm.Height = height
+	vm.Round = round
+	vm.Type = vt
+	vm.BlockID = bid
+	vm.BlockPartSetIDAndNTSVoteCount = psid.WithAppData(psidAppData(nid, ntsVoteCount))
+	vm.Timestamp = ts
+	_ = vm.Sign(w)
+	return vm
+}
+
+func VerifVoteDigest(m *VoteMessage) []byte { return m.RoundDecisionDigest() }
+func VerifVoteHash(m *VoteMessage) []byte   { return m.hash() }
+func VerifVoteSigner(m *VoteMessage) []byte {
+	a := m.address()
+	if a == nil {
+		return nil
+	}
+	return a.Bytes()
+}
